@@ -96,9 +96,6 @@ func SNPValidateFunc(opts *Options) func(*spb.Attestation, []byte) error {
 // SNPFamilyValidateFunc returns a validation function that can be used with go-sev-guest on an
 // SEV-SNP attestation report given an expected familyID.
 func SNPFamilyValidateFunc(familyID string, opts *Options) func(*spb.Attestation, []byte) error {
-	if opts.SNP == nil {
-		opts.SNP = &SNPOptions{}
-	}
 	return func(attestation *spb.Attestation, serializedEndorsement []byte) error {
 		if attestation == nil {
 			return fmt.Errorf("attestation is nil")
@@ -118,12 +115,20 @@ func SNPFamilyValidateFunc(familyID string, opts *Options) func(*spb.Attestation
 			serializedEndorsement = blob
 
 		}
-		opts.SNP.Measurement = measurement
-		// Prefer the endorsement provided by the caller.
-		if opts.Endorsement != nil {
-			return EndorsementProto(opts.Endorsement, opts)
+		// The validator may be called repeatedly and concurrently, so the attestation's measurement
+		// must live in a per-call copy of the options, never in the caller's shared Options.
+		callOpts := *opts
+		callSNP := SNPOptions{}
+		if opts.SNP != nil {
+			callSNP = *opts.SNP
 		}
-		return Endorsement(serializedEndorsement, opts)
+		callSNP.Measurement = measurement
+		callOpts.SNP = &callSNP
+		// Prefer the endorsement provided by the caller.
+		if callOpts.Endorsement != nil {
+			return EndorsementProto(callOpts.Endorsement, &callOpts)
+		}
+		return Endorsement(serializedEndorsement, &callOpts)
 	}
 }
 
